@@ -17,7 +17,7 @@ RULE = ('P1 drawn in zones 1..60, both hemispheres, easting 100 000..900 000, la
         'convergence in P2\'s own zone (1e-8 deg + 1 mm at the far end); vincdir_utm(bearing, distance) reproduces P2 within '
         '1 mm in P1\'s zone; lsf within [min, max] point scale factor +-3e-7 and within 5e-7 of the 11-point Simpson mean (psf from '
         'tm_exact).  5 % of the direct calls are preceded by a tuned 1 m line in the same zone whose returned line scale factor equals the planar first estimate of the judged line (a value taken from the artefact).  distinct = zone band x hemisphere x |lat| band x length decade x direction octant x same/adjacent zone x '
-        'ellipsoid')
+        'ellipsoid Point pairs with the same easting/northing figures in neighbouring zones (north of 81.6 deg) are a class; point pairs closer than 0.5 m are not judged.')
 ASSUMPTIONS = ['tm_exact and geod_exact oracles (self-validated each shard)',
                'bearing tolerance 1e-8 deg + 1 mm at the far end (the statement gives none for bearings; DESIGN.md section 5)']
 N = {'quick': 400, 'thorough': 6000}
